@@ -52,7 +52,7 @@ NodeInit(e) ==
      lk |-> <<>>, pendSearch |-> <<>>, sidAid |-> <<>>, closed |-> <<>>, yields |-> <<>>, started |-> <<>>,
      rounds |-> <<>>, succ |-> <<>>,
      answered |-> FALSE, waits |-> <<>>, qsent |-> 0, started_at |-> now, bootstate |-> "AwaitStart",
-     samples |-> <<>>, lastAns |-> <<>>, lastNamed |-> <<>>, qsince |-> <<>>, admitted |-> {}]
+     annClosed |-> <<>>, samples |-> <<>>, lastAns |-> <<>>, lastNamed |-> <<>>, qsince |-> <<>>, admitted |-> {}]
 
 Init == l = 1 /\ S = <<>> /\ G = [universe |-> <<>>, plan |-> <<>>, coop |-> FALSE, twins |-> <<>>, responsive |-> <<>>]
 
@@ -158,13 +158,36 @@ FitsOK(m, ln) ==
 
 \* ------------------------------------------------------------------ lookups (C02 C03 C04 C16 C19)
 NewLookup(e) == [target |-> e.target, announce |-> e.announce, at |-> now, q |-> <<>>, toks |-> <<>>, budget |-> <<>>,
-                 nann |-> 0, anndst |-> {}, done |-> FALSE, doneAt |-> -1, eg |-> -1, consumed |-> 0, told |-> {}, sid |-> -1, failed |-> 0]
+                 nann |-> 0, anndst |-> {}, ihx |-> "?", done |-> FALSE, doneAt |-> -1, eg |-> -1, consumed |-> 0, told |-> {}, sid |-> -1, failed |-> 0]
 BagAdd(b, xs) == LET S0 == {xs[i] : i \in 1..Len(xs)} IN
     [x \in DOMAIN b \cup S0 |-> FGet(b, x, 0) + Cardinality({i \in 1..Len(xs) : xs[i] = x})]
 BagHas(b, x) == x \in DOMAIN b /\ b[x] > 0
 BagDec(b, x) == [b EXCEPT ![x] = @ - 1]
 BagEmpty(b) == \A x \in DOMAIN b : b[x] = 0
 
+
+
+\* ------------------------------------------------------------------ C01: end to end
+TTL_MS == 86400000
+\* the contact under which node a is to be found: its IP with the configured announce port, else its UDP source port
+ContactOf(a) == IF S[a].aport = -1 THEN a ELSE [a EXCEPT !.port = S[a].aport]
+\* times at which node n last acknowledged an announce of <<ih, c>>
+StoreTimes(ih, c) == {S[n].acked[<<ih, c>>] : n \in {x \in DOMAIN S : <<ih, c>> \in DOMAIN S[x].acked}}
+SetMax(T) == CHOOSE x \in T : \A y \in T : y <= x
+E2EOK(b, lk, ys) ==
+    \A a \in DOMAIN S \ {b} :
+        LET ends == {S[a].annClosed[i].at : i \in {j \in 1..Len(S[a].annClosed) : S[a].annClosed[j].ih = lk.ihx}}
+            \* the announce datagrams are sent when the announcing search ends and travel for less than 1 s (premise of C01)
+            before == {x \in ends : x + 1000 <= lk.at}
+            c == ContactOf(a)
+            st == StoreTimes(lk.ihx, c)
+            got == c \in {ys[i] : i \in 1..Len(ys)} IN
+        before # {} =>
+            \* every node that acknowledged the announce still holds it (24 h after ITS last acknowledgement): it must be found;
+            \* nothing was acknowledged at all although the announcing search ended: it must have been found as well
+            /\ ((st = {} /\ now < SetMax(before) + TTL_MS) \/ (st # {} /\ now < SetMin(st) + TTL_MS)) => got
+            \* 24 hours after the last acknowledgement anywhere it must no longer be found
+            /\ (st # {} /\ lk.at > SetMax(st) + TTL_MS) => ~got
 
 \* ------------------------------------------------------------------ C18: refresh cadence
 CountIn(seq, lo, hi) == Cardinality({i \in 1..Len(seq) : seq[i] > lo /\ seq[i] <= hi})
@@ -242,7 +265,7 @@ SeqBag(s) == BagAdd(<<>>, s)
 
 ApiSearchStep(e) ==
     LET nd == Nd(e) IN
-    /\ Upd(e, [nd EXCEPT !.pendSearch = Append(@, [sid |-> e.sid, ih |-> e.ih, announce |-> e.announce, at |-> now]),
+    /\ Upd(e, [nd EXCEPT !.pendSearch = Append(@, [sid |-> e.sid, ih |-> e.ih, ihx |-> e.ihx, announce |-> e.announce, at |-> now]),
                          !.yields = FSet(@, e.sid, <<>>)])
     /\ UNCHANGED G
 
@@ -258,13 +281,13 @@ LookupStartStep(e) ==
     /\ Chk("C19", "live-activities-have-distinct-prefixes", l, e.aid \notin nd.usedpfx)
     /\ Chk("C16", "a-search-starts-only-after-the-initial-bootstrap", l, Len(nd.succ) > 0)
     /\ Chk("C16", "lookup-corresponds-to-a-requested-search", l, i # 0)
-    /\ Upd(e, [nd EXCEPT !.lk = FSet(@, e.aid, [NewLookup(e) EXCEPT !.sid = sid]),
+    /\ Upd(e, [nd EXCEPT !.lk = FSet(@, e.aid, [NewLookup(e) EXCEPT !.sid = sid, !.ihx = IF i = 0 THEN "?" ELSE nd.pendSearch[i].ihx]),
                          !.usedpfx = @ \cup {e.aid},
                          !.sidAid = IF i = 0 THEN @ ELSE FSet(@, sid, e.aid),
                          !.pendSearch = IF i = 0 THEN @ ELSE [j \in 1..(Len(@) - 1) |-> IF j < i THEN @[j] ELSE @[j + 1]]])
     /\ UNCHANGED G
 
-Outstanding(lk) == {t \in DOMAIN lk.q : lk.q[t].ok /\ ~lk.q[t].answered}
+Outstanding(lk) == {t \in DOMAIN lk.q : lk.q[t].ok /\ ~lk.q[t].answered /\ ~lk.q[t].timedout}
 
 EndgameStep(e) ==
     LET nd == Nd(e)  lk == nd.lk[e.aid] IN
@@ -306,7 +329,9 @@ ClosedStep(e) ==
           /\ (G.coop => Chk("C02", "every-peer-of-every-answer-was-delivered-once-per-occurrence", l, BagEmpty(lk.budget)))
           /\ (G.coop /\ lk.announce) =>
                  Chk("C02", "announced-to-exactly-the-8-closest-nodes", l, lk.anndst = UniverseClosest8(lk.target, nd.fam))
-    /\ Upd(e, [nd EXCEPT !.closed = FSet(@, e.sid, now)])
+    /\ (known /\ lk.done) => Chk("C01", "a-search-finds-every-announcer-within-24h-and-none-after", l, E2EOK(e.node, lk, FGet(nd.yields, e.sid, <<>>)))
+    /\ Upd(e, [nd EXCEPT !.closed = FSet(@, e.sid, now),
+                         !.annClosed = IF known /\ lk.announce THEN Append(@, [ih |-> lk.ihx, at |-> now]) ELSE @])
     /\ UNCHANGED G
 
 EndStep(e) ==
@@ -401,11 +426,11 @@ HStepStep(e) ==
     LET nd0 == Nd(e)
         m == IF e.kind = "incoming" THEN nd0.pend ELSE NoMsg
         \* a response handed to the handler is consumed by the search whose outstanding query it answers (if any)
-        \* a query whose 1.5 s time-out fires is no longer outstanding
+        \* a query whose 1.5 s time-out fires no longer keeps the search waiting, but its answer is still accepted while the search runs
         pfx == IF e.kind = "timer" /\ e.what = "LookupTimeout" THEN SubSeq(e.tid, 1, 10) ELSE ""
         nd == IF e.kind = "incoming" THEN ConsumeResponse(nd0, m, nd0.psrc)
               ELSE IF pfx # "" /\ pfx \in DOMAIN nd0.lk /\ e.tid \in DOMAIN nd0.lk[pfx].q
-                   THEN [nd0 EXCEPT !.lk[pfx].q[e.tid].answered = TRUE, !.lk[pfx].q[e.tid].timedout = TRUE]
+                   THEN [nd0 EXCEPT !.lk[pfx].q[e.tid].timedout = TRUE]
                    ELSE nd0 IN
     /\ Chk("C14", "steps-do-not-nest", l, ~nd0.step.open)
     /\ (pfx # "" /\ pfx \in DOMAIN nd0.lk /\ e.tid \in DOMAIN nd0.lk[pfx].q) =>
